@@ -43,9 +43,9 @@ def xmlChars (s : Str) : Bool := s.all isXmlChar
 
 def isXmlSpace (c : Char) : Bool := c == ' ' || c == '\t' || c == '\n' || c == '\r'
 
-/-- characters that may stand unescaped inside `"…"` in a declaration -/
-def uriSafe (s : Str) : Bool :=
-  s.all (fun c => isXmlChar c && c != '<' && c != '&' && c != '"' && c != '\t' && c != '\n' && c != '\r')
+/-- characters a namespace name may consist of (the writer escapes markup, quotes and
+blanks in the declaration since the repair of c03-uri-markup) -/
+def uriSafe (s : Str) : Bool := s.all isXmlChar
 
 def xmlPrefix : Str := ['x', 'm', 'l']
 def xmlnsPrefix : Str := ['x', 'm', 'l', 'n', 's']
@@ -169,9 +169,10 @@ def pStep (st : PState) : Tok → Option PState
     match st.stack with
     | [] => if s.all isXmlSpace then some st else none        -- only blanks outside the root
     | f :: r =>
+      -- written with `\r` as a character reference: no end-of-line normalisation applies
       if xmlChars s then
-        some { st with stack := { f with kidsRev := addChunk st.lastCR s f.kidsRev } :: r,
-                       lastCR := s.getLast? == some '\r' }
+        some { st with stack := { f with kidsRev := (if s.isEmpty then f.kidsRev else addText s f.kidsRev) } :: r,
+                       lastCR := false }
       else none
   | .raw s =>
     if !s.all isXmlSpace then none                            -- unescaped, so only blanks are safe
@@ -285,7 +286,6 @@ def eStep (xsiNil : EName) (st : EState) : Ev → Option EState
       match val with
       | some s =>
         if s.isEmpty then some { st with stack := { f1 with afterData := true } :: r }
-        else if f.afterData then none            -- second text chunk in a row
         else some { st with stack := { f1 with kidsRev := addText s f1.kidsRev, afterData := true } :: r }
       | none => some { st with stack := { f1 with afterData := true } :: r }
     | _, _ => none
